@@ -58,7 +58,8 @@ PairMods(w, snd) ==
     {Put(w, en) : en \in BoundaryPuts \cup Extras} \cup {Del(w, m) : m \in Mandatory(snd)} \cup {DupOf(w, w[i].id) : i \in DOMAIN w}
 
 \* limits a client may remember
-RemVals(id) == IF id = 14 THEN {"2", "3", "1048576", VMAX} ELSE {"0", "1", "1048576", VMAX}
+RemVals(id) == IF id = 14 THEN {"2", "3", "1048576", VMAX}
+               ELSE IF id \in {8, 9} THEN {"0", "1", "1048576", P60} ELSE {"0", "1", "1048576", VMAX}
 RemFull == << En(4, "v", "1048576"), En(5, "v", "65527"), En(6, "v", "65527"), En(7, "v", "16383"), En(8, "v", "64"),
               En(9, "v", "63"), En(14, "v", "3"), En(32, "v", "1200") >>
 IdlePts == {"0", "1", "25", "65527", "1048576", VMAX}
@@ -69,6 +70,7 @@ Scen(fam, role, mode, order, odcid, rt, lidle, rem, wire, sid) ==
 
 InitSweep ==
     \E role \in Roles, mode \in Modes, order \in Orders, b \in {"min", "full"} :
+        /\ (b = "full" => mode = "wire")          \* the setters see each entry in isolation: one base is enough for them
         /\ sc = Scen("sweep", role, mode, order, IF role = "client" THEN D8 ELSE NoCid, NoCid, "65527", None,
                      BaseSet(b, PeerOf(role)), A8)
         /\ target = MaxMods
@@ -108,7 +110,8 @@ InitRand(fam) ==
         /\ rt # NoCid => role = "client"
         /\ sc = Scen(fam, role, mode, order, IF role = "client" THEN D8 ELSE NoCid, rt, l,
                      IF withrem THEN Some(RemFull) ELSE None,
-                     MinSet(PeerOf(role), A8, D8) \o (IF rt = NoCid THEN <<>> ELSE << En(16, "x", rt) >>), A8)
+                     MinSet(PeerOf(role), A8, D8) \o (IF rt = NoCid THEN <<>> ELSE << En(16, "x", rt) >>)
+                         \o (IF withrem THEN RemFull ELSE <<>>), A8)
         /\ target = t
 
 GenInit ==
